@@ -410,13 +410,26 @@ func (d *dealer) removeSession(sess *wamp.Session) {
 	var metaPubs []*wamp.Publish
 	done := make(chan struct{})
 	d.actionChan <- func() {
-		metaPubs = d.syncRemoveSession(sess)
+		metaPubs = d.syncRemoveSession(sess, false)
 		close(done)
 	}
 	<-done
 	for _, pub := range metaPubs {
 		d.metaPeer.Send() <- pub
 	}
+}
+
+// removeSessionQuiet forgets the session's registrations, the invocations it
+// was serving and its pending calls, without meta events and without error
+// replies to the callers it was serving. This is called when the realm is
+// shutting down.
+func (d *dealer) removeSessionQuiet(sess *wamp.Session) {
+	done := make(chan struct{})
+	d.actionChan <- func() {
+		d.syncRemoveSession(sess, true)
+		close(done)
+	}
+	<-done
 }
 
 // close stops the dealer, letting already queued actions finish.
@@ -1269,7 +1282,7 @@ func (d *dealer) syncError(callee *wamp.Session, msg *wamp.Error) {
 	})
 }
 
-func (d *dealer) syncRemoveSession(sess *wamp.Session) []*wamp.Publish {
+func (d *dealer) syncRemoveSession(sess *wamp.Session, quiet bool) []*wamp.Publish {
 	var metaPubs []*wamp.Publish
 	// Remove any remaining registrations for the removed session.
 	for regID := range d.calleeRegIDSet[sess] {
@@ -1278,7 +1291,7 @@ func (d *dealer) syncRemoveSession(sess *wamp.Session) []*wamp.Publish {
 			panic("!!! Callee had ID of nonexistent registration")
 		}
 
-		if d.metaPeer == nil {
+		if d.metaPeer == nil || quiet {
 			continue
 		}
 
@@ -1318,6 +1331,12 @@ func (d *dealer) syncRemoveSession(sess *wamp.Session) []*wamp.Publish {
 		// Stop any call timeout timer.
 		if invk.timerCancel != nil {
 			invk.timerCancel()
+		}
+		if quiet {
+			delete(d.calls, invk.callID)
+			delete(d.invocationByCall, invk.callID)
+			delete(d.invocations, iid)
+			continue
 		}
 		if errArgs == nil {
 			errArgs = wamp.List{"callee gone"}
